@@ -397,7 +397,21 @@ def oracle(chk, n, hints=()):
     rng = random.Random(chk.seed + 2020)
     Cfg = make_class()
     pool = [object()]
-    histories = [h for _, h in hints] + [gen_history(rng, rng.randint(3, 20), pool) for _ in range(n)]
+    special = []
+    defaults = {nme: type(Cfg).__dict__[nme].default for nme in FIELDS}
+    for nme, t in FIELDS.items():
+        other = 'false' if nme == 'B' else 'true' if nme == 'BF' else wellformed_text(rng, t)
+        # bulk update to the value that is resolved anyway (the default) must still make it explicit: the environment no longer wins, delete works
+        special.append([('update', [(nme, defaults[nme])]), ('setenv', nme, other), ('get', nme), ('del', nme), ('get', nme), ('unsetenv', nme), ('get', nme)])
+        # ... and to the value the environment currently gives
+        try:
+            envval = ref_parse(t, other)
+        except Exception:      # noqa
+            continue
+        if envval is not None and envval == envval:
+            other2 = 'true' if nme == 'B' else 'false' if nme == 'BF' else wellformed_text(rng, t)
+            special.append([('setenv', nme, other), ('get', nme), ('update', [(nme, envval)]), ('setenv', nme, other2), ('get', nme), ('del', nme), ('get', nme)])
+    histories = special + [h for _, h in hints] + [gen_history(rng, rng.randint(3, 20), pool) for _ in range(n)]
     for h in histories:
         for k in list(os.environ):
             if k.startswith('VT_'):
@@ -415,7 +429,8 @@ def oracle(chk, n, hints=()):
                 try:
                     delattr(Cfg, o[1])
                 except AttributeError:
-                    pass
+                    if o[1] in expl and o[1] in FIELDS:
+                        what = f"deleting the explicitly set {o[1]} raised AttributeError"
                 expl.pop(o[1], None)
             elif k == 'setenv':
                 os.environ['VT_' + o[1]] = o[2]; env[o[1]] = o[2]
@@ -465,6 +480,38 @@ def oracle(chk, n, hints=()):
         if k.startswith('VT_'):
             del os.environ[k]
     core_config_oracle(chk)
+    if not chk.failures:
+        parser_oracle(chk)
+
+
+def parser_oracle(chk):
+    """config values with their own parser: each one parses its environment text by ITS rule, whatever was read before and whatever other value
+    of the same type holds the same text"""
+    import itertools
+    from pyroll.core.config import config, ConfigValue
+    rules = {'HEXV': (lambda s: int(s, 16)), 'PLAIN': None, 'NEG': (lambda s: -int(s)), 'TWICE': (lambda s: 2 * int(s))}
+    for text in ('21', '30', '7'):
+        expect = {'HEXV': int(text, 16), 'PLAIN': int(text), 'NEG': -int(text), 'TWICE': 2 * int(text)}
+        for order in itertools.permutations(rules):
+            @config("VP")
+            class PCfg:
+                HEXV = ConfigValue(1, parser=rules['HEXV'])
+                PLAIN = 2
+                NEG = ConfigValue(3, parser=rules['NEG'])
+                TWICE = ConfigValue(4, parser=rules['TWICE'])
+            for nme in rules:
+                os.environ['VP_' + nme] = text
+            try:
+                got = {nme: getattr(PCfg, nme) for nme in order}
+            finally:
+                for nme in rules:
+                    os.environ.pop('VP_' + nme, None)
+            chk.cov['evaluations'] += 1
+            bad = [nme for nme in order if got[nme] != expect[nme]]
+            if bad:
+                chk.fail('config:parser', f"environment text {text!r} for four integer values with different parsers, read in the order {list(order)}: "
+                         f"{bad[0]} gives {got[bad[0]]!r}, its parser gives {expect[bad[0]]!r}", {'text': text, 'order': list(order)})
+                return
 
 
 def core_config_oracle(chk):
